@@ -2,10 +2,48 @@
          "C11 json <hex>"                      -> "json"   (the contract-hash clause is evaluated on the implementation only) *)
 From Coq Require Import List NArith.
 From Coq.Strings Require Import Byte.
-From EV Require Import Base.Bytes Base.Sha256 Base.Codec Model.Tx Model.Ids Extract.RunUtil Extract.RunC01.
+From EV Require Import Base.Bytes Base.Sha256 Base.Codec Model.Tx Model.Ids Model.Json Extract.RunUtil Extract.RunC01.
 Import ListNotations.
 Open Scope N_scope.
 
+(* JSON tree tokens: L<hex> leaf | A<n> then n values | O<n> then n times (K<hexraw>:<hexliteral>, value) *)
+Definition split_colon (s : bytes) : option (bytes * bytes) :=
+  match split_on x3a s [] with [a; b] => Some (a, b) | _ => None end.
+Fixpoint pj (fuel : nat) (toks : list bytes) : option (json * list bytes) :=
+  match fuel with O => None | S f =>
+    match toks with
+    | (c :: body) :: r =>
+        if byte_eqb c x4c then match hexarg body with Some t => Some (JLeaf t, r) | None => None end
+        else if byte_eqb c x41 then
+          match N_of_dec body with
+          | Some n =>
+              (fix many (k : nat) (ts : list bytes) (acc : list json) : option (json * list bytes) :=
+                 match k with O => Some (JArr (rev' acc), ts)
+                 | S k' => match pj f ts with Some (v, ts') => many k' ts' (v :: acc) | None => None end end) (N.to_nat n) r []
+          | None => None end
+        else if byte_eqb c x4f then
+          match N_of_dec body with
+          | Some n =>
+              (fix many (k : nat) (ts : list bytes) (acc : list (bytes * (bytes * json))) : option (json * list bytes) :=
+                 match k with O => Some (JObj (rev' acc), ts)
+                 | S k' => match ts with
+                           | (kc :: kb) :: ts1 =>
+                               match split_colon kb with
+                               | Some (hk, hl) => match hexarg hk, hexarg hl, pj f ts1 with
+                                                  | Some rk, Some lit, Some (v, ts') => many k' ts' ((rk, (lit, v)) :: acc)
+                                                  | _, _, _ => None end
+                               | None => None end
+                           | _ => None end end) (N.to_nat n) r []
+          | None => None end
+        else None
+    | _ => None end end.
+Definition run_jsonc (toks : list bytes) : bytes :=
+  match toks with
+  | _ws :: tree => match pj (S (length tree)) tree with
+                  | Some (JObj l, []) => "ok "%lb ++ hex_of_bytes (sha256 (canon (JObj l)))
+                  | Some (_, []) => "err"%lb
+                  | _ => err "jsonc" end
+  | [] => err "jsonc" end.
 Definition show_ids (p : bytes * bytes) : bytes := hex_of_bytes (fst p) ++ sp ++ hex_of_bytes (snd p).
 Definition run (args : list bytes) : bytes :=
   match args with
@@ -18,4 +56,5 @@ Definition run (args : list bytes) : bytes :=
           | None => "err"%lb end
       | _, _, _ => err "parse" end
   | [ty; _] => if bytes_eqb ty "json"%lb then "json"%lb else err "args"
+  | ty :: rest => if bytes_eqb ty "jsonc"%lb then run_jsonc rest else err "args"
   | _ => err "args" end.
